@@ -1,0 +1,18 @@
+//go:build verif
+
+package stream
+
+// Read-only accessors for the deterministic-simulation checks in /verif.
+// Compiled only with the build tag "verif"; nothing here changes state.
+
+// VerifPendingStream returns the stream object that belongs to a pending
+// STREAM_OPEN request (nil if there is no such request), so that a check can
+// observe the state of a stream before its STREAM_OPEN_ACK arrives.
+func (m *Manager) VerifPendingStream(requestID uint64) *Stream {
+	m.mu.RLock()
+	defer m.mu.RUnlock()
+	if p, ok := m.pendingRequests[requestID]; ok {
+		return p.Stream
+	}
+	return nil
+}
